@@ -385,6 +385,8 @@ def gen_macro_edit(rng, pcode: str, name: str):
         a, b = rng.choice(pairs)
         out = list(idl)
         out[a], out[b] = (idl[a][0], lines[b]), (idl[b][0], lines[a])
+        if lines[a].strip() in ("CmdA", "CmdB") and lines[b].strip() in ("CmdA", "CmdB"):
+            kind = "command-name"             # two commands change places: only instruction names differ
         return kind, out
     if kind == "delete-line":
         k = rng.choice(flat or [sig[-1]])
